@@ -20,6 +20,9 @@ def Message.Typed (m : Message) : Prop :=
 def Op.Typed {σ : Type} : Op σ → Prop
   | .approve _ proof => proof.weightedSigners.Typed
   | .rotate _ ws proof _ => ws.Typed ∧ proof.weightedSigners.Typed
+  -- `upgrade` / `migrate` carry only authorisers, on which (as for every other operation) nothing is assumed
+  | .upgrade _ => True
+  | .migrate _ => True
   | _ => True
 
 /-! ### C03: well-formed signer sets -/
